@@ -264,3 +264,46 @@ func VH_C14_loop(c, m int) {
 	}
 	vobserve("handled", uint64(len(handled)))
 }
+
+// C14(c''): deferring while deferred events are being re-queued. d events wait for B. A handler
+// that runs inside AddEvent reacts to the first of them (when it is re-queued after B) by
+// deferring two follow-ups until the next B. Every event - the original d and the two follow-ups
+// - is delivered exactly once, the originals after the first B in deferral order, the follow-ups
+// only after the second B.
+func VH_C14_deferred3(d int) {
+	el := New(logging.VNop(), 32)
+	var log []int // -1: B handled; k >= 0: A event k handled by the queued handler
+	Register(el, func(e vhEvA) {
+		if e.n == 0 {
+			DelayUntil[vhEvB](el, vhEvA{60})
+			DelayUntil[vhEvB](el, vhEvA{61})
+		}
+	}, UnsafeRunInAddEvent())
+	Register(el, func(e vhEvA) { log = append(log, e.n) })
+	Register(el, func(e vhEvB) { log = append(log, -1) })
+	for k := 0; k < d; k++ {
+		DelayUntil[vhEvB](el, vhEvA{k})
+	}
+	fireB := func() {
+		el.AddEvent(vhEvB{0})
+		for el.Tick(context.Background()) {
+		}
+	}
+	fireB()
+	vassert(len(log) == 1+d, "first-awaited-event-releases-exactly-the-waiting-events")
+	if len(log) == 1+d {
+		vassert(log[0] == -1, "awaited-event-handled-first")
+		for k := 0; k < d; k++ {
+			vassert(log[1+k] == k, "deferred-events-delivered-once-in-deferral-order")
+		}
+	}
+	fireB()
+	vassert(len(log) == 1+d+3, "events-deferred-during-the-re-queue-wait-for-the-next-awaited-event")
+	if len(log) == 1+d+3 {
+		vassert(log[1+d] == -1 && log[2+d] == 60 && log[3+d] == 61, "follow-ups-delivered-once-in-order-after-the-second-awaited-event")
+	}
+	fireB()
+	vassert(len(log) == 1+d+3+1, "nothing-delivered-twice")
+	vcover("deferred-during-requeue")
+	vobserve("log", uint64(len(log)))
+}
